@@ -18,6 +18,8 @@ def roots_of(sm):
         nm = b["name"]
         if b["kind"] == "fn" and (nm == "protocol::response::parse_json_response" or nm.endswith("Version as std::str::FromStr>::from_str") or "system_time_conversion::" in nm):
             roots.append(b["id"])
+        if b["kind"] == "fn" and (nm.startswith("<cup_ecdsa::StandardCupv2Handler as ") or nm.startswith("cup_ecdsa::StandardCupv2Handler::") or nm.startswith("<http::Uri as http_uri_ext::")):
+            roots.append(b["id"])   # the stock CUP handler: response headers reach it as they came off the wire
         if b.get("trait_default") in ("storage::StorageExt", "app_set::AppSetExt"):
             roots.append(b["id"])
         it = lib.norm(b.get("impl_trait") or "")
@@ -166,6 +168,12 @@ def run(F, R):
                 e_ = strip(ix[3][0])
                 if e_[0] == "call" and lib.norm(e_[1]).endswith("::len") and ("param", 1) in [strip(x) for x in walk(e_)]:
                     proof = _array_prefix_proof(bv, s_) + " (range ..v.len())"
+        if proof is None and desc in ("api:IndexMut::index_mut", "api:Index::index") and len(s_["t"].get("args", [])) > 1:
+            ix_ = strip(bv.trace_op(s_["t"]["args"][1]))
+            if ix_[0] == "agg" and (ix_[2] or "").endswith("RangeFull"):
+                proof = "x[..]: the full range is in bounds for every length"
+        if proof is not None:
+            pass
         elif desc == "panic:begin_panic" and W.is_select_closure(bv.id):
             proof = "select! keeps a live arm (C11-R5 typestate re-evaluated here)" if select_ok.get(bv.id) else None
         if proof:
@@ -361,6 +369,13 @@ def run(F, R):
 
 
 # ---------------------------------------------------------------------- proof helpers
+
+    # ---------------------------------------------------------------- lock discipline (shared engine va/locks.py)
+    R.rule("C14-R7", "the flow cannot wait for itself: no mutex (storage, app set) is taken while a guard of the same kind is held, directly or in a callee; two kinds are always taken in the same order (storage before app set); no event is emitted while a guard is held")
+    from .. import locks as _locks
+    _locks.check(R, "C14-R7", sm.w, [sm.c], floor_regions=12)
+
+
 def _callers(W, reachable, bid):
     out = []
     for r in reachable:
